@@ -244,6 +244,36 @@ def run_inputs(chk, runner, inputs, batch, script_every):
                                    {'label': label, 'path': path, 'text': text, 'front': front}, sig_prefix=front + (':' + label if label.startswith('special:') else ''), sig_suffix=front)
             continue
         judge(chk, label, path, text, r, ws)
+    return results
+
+
+def memcheck_pass(chk, inputs, results, tier):
+    """a sample of the inputs the ASan pass completed, through the four front ends of an uninstrumented build under valgrind memcheck:
+    decisions taken on bytes that were never written (short reads, partly filled buffers, members left unset by an early return) are
+    invisible to ASan. Inputs that die in the ASan pass (recorded defects) are left out, so a death here is new information."""
+    rng = core.rng('c10-memcheck')
+    cand = [n for n, ((label, path, text), r) in enumerate(zip(inputs, results)) if not isinstance(r, core.Death) and len(text) <= 6000]
+    rng.shuffle(cand)
+    cand = sorted(cand[:(700 if tier == 'quick' else 20000)])
+    prefix = [{'op': 'vm', 'vm': 0, 'maps': [[os.path.join(CORPUS, 'pp'), '/']], 'max_runtime_ms': 200, 'print_work': False}]
+    items = [steps_for(inputs[n][2], inputs[n][1], 0) for n in cand]
+    reports, deaths, n_run = core.run_memcheck(items, prefix_steps=prefix, batch=25, item_cpu_ms=400)
+    chk.count('memcheck_inputs', n_run)
+    chk.count('memcheck_reports', len(reports))
+    for j, rep in reports:
+        label, path, text = inputs[cand[j]]
+        if not rep['file']:
+            chk.count('memcheck_reports_outside_repo')
+            chk.notes.append('memcheck report outside the repository sources: %s' % rep['head'][:300].replace('\n', ' / '))
+            continue
+        if chk.known_by_sig(rep['sig']):
+            continue
+        chk.violation(rep['sig'], 'valgrind memcheck on input %s of %s (%d bytes): %s in %s (%s)' % (label, os.path.basename(path), len(text), rep['kind'], rep['fn'], rep['file']),
+                      {'label': label, 'path': path, 'text': text, 'memcheck': rep['head']})
+    for j, d in deaths:
+        # the same input completed under ASan: without a memcheck report there is nothing to decide on
+        chk.inconclusive += 1
+        chk.count('memcheck_deaths_without_report')
 
 
 FAMILIES = {
@@ -333,7 +363,8 @@ def main(tier):
         chk.sample({'label': lab, 'file': os.path.basename(p), 'text': t[:200]})
     probes(chk, runner)
     scaling(chk, runner, tier)
-    run_inputs(chk, runner, inputs, 40, 10 if tier == 'quick' else 4)
+    results = run_inputs(chk, runner, inputs, 40, 10 if tier == 'quick' else 4)
+    memcheck_pass(chk, inputs, results, tier)
     return chk.finish(
         rule='inputs = corpus files (repo tests + corpus/), %s of each, single-token deletions/duplications/swaps/replacements (incl. hostile tokens) '
              'and hostile constructions (deep nesting, long runs, recursive macros/includes); each goes to the preprocessor, the SQF parser (raw and after '
